@@ -129,6 +129,96 @@ def user_blocks(res, rng, n):
         res.count(('user', i), hist={'user_designs': 'wild'})
 
 
+_C07_FAM = None
+
+
+def single_block_stream(res, rng, n):
+    """every library arithmetic / logic / selection / comparison block on its own at sampled legal MIXED port widths (the generators of
+    the C07 / C08 checks: results narrower and wider than the natural width included), driven with boundary patterns; oracle = range
+    check on every wire of the block (internal ones included) after creation, after every clk and inside a listener"""
+    import py4hw, contextlib, io
+    import c07, c08
+    for i in range(n):
+        r = rng.fork(i)
+        class _Case:
+            pass
+        case = _Case()
+        try:
+            if i % 3 == 0:
+                global _C07_FAM
+                if _C07_FAM is None:
+                    _C07_FAM = [(b, p) for b, p, _ in c07.param_families('quick', Rng(12345))]
+                blk, prm = r.choice(_C07_FAM)
+                case.inw, case.outw, ctor7 = c07.block_def(blk, prm)
+                case.real, case.desc = blk, dict(block=blk, params=list(prm), input_widths=case.inw, output_widths=case.outw)
+                case.build = lambda hw_, i_, o_: ctor7(hw_, i_, o_)
+            elif i % 3 == 1:
+                c8 = c08.random_case(r, r.choice([4, 8, 16]))
+                case.inw, case.outw, case.real, case.desc = c8.inw, c8.outw, c8.real, c8.summary()
+                case.build = lambda hw_, i_, o_, _c=c8: _c.ctor(py4hw, hw_, i_, o_)
+            else:
+                # bit-field primitives with a result wire of ANY width (narrower than the field included)
+                aw = r.randint(1, 24)
+                lo = r.randint(0, aw - 1)
+                hi = r.randint(lo, aw - 1)
+                rw = r.randint(1, 24)
+                kind = r.choice(['Range', 'Range', 'Bit', 'ZeroExtend', 'SignExtend', 'Buf', 'Not', 'ShiftLeftConstant', 'ShiftRightConstant'])
+                case.inw, case.outw, case.real = [aw], [rw], kind
+                case.desc = dict(block=kind, aw=aw, rw=rw, high=hi, low=lo)
+                def build(hw_, i_, o_, _k=kind, _hi=hi, _lo=lo):
+                    if _k == 'Range':
+                        py4hw.Range(hw_, 'dut', i_[0], _hi, _lo, o_[0])
+                    elif _k == 'Bit':
+                        py4hw.Bit(hw_, 'dut', i_[0], _lo, o_[0])
+                    elif _k in ('ShiftLeftConstant', 'ShiftRightConstant'):
+                        getattr(py4hw, _k)(hw_, 'dut', i_[0], _lo, o_[0])
+                    else:
+                        getattr(py4hw, _k)(hw_, 'dut', i_[0], o_[0])
+                case.build = build
+        except Exception as e:
+            res.hist('build_errors', 'case:' + str(e)[:40])
+            continue
+        hw = py4hw.HWSystem()
+        ins = [hw.wire(f'i{k}', w) for k, w in enumerate(case.inw)]
+        outs = [hw.wire(f'o{k}', w) for k, w in enumerate(case.outw)]
+        try:
+            with contextlib.redirect_stdout(io.StringIO()):
+                case.build(hw, ins, outs)
+                sim = hw.getSimulator()
+        except Exception as e:
+            res.hist('build_errors', f'{case.real}:{str(e)[:40]}')
+            continue
+        wires = D.all_wires(hw)
+        desc = dict(design='single library block', block=case.real, summary=case.desc)
+        cur = {}
+
+        def chk(_d=None, _s=None):
+            for w in wires:
+                v = w.value
+                if not (isinstance(v, int) and 0 <= v < (1 << w.getWidth())):
+                    res.fail(f'wire {w.getFullPath()} width {w.getWidth()} holds {v}',
+                             dict(desc, wire=w.getFullPath(), width=w.getWidth(), value=v, inputs=dict(cur), clks=sim.total_clks))
+                    return
+        chk()
+        sim.addListener(Listener(None, chk, sim))
+        try:
+            with contextlib.redirect_stdout(io.StringIO()):
+                for t in range(10):
+                    for k, w in enumerate(ins):
+                        m = (1 << w.getWidth()) - 1
+                        v = r.choice([m, m, 0, 1, m >> 1, (m >> 1) + 1, r.randint(0, m), 0x5555555555555555 & m, 0xAAAAAAAAAAAAAAAA & m, -1, m + 7])
+                        cur[f'i{k}'] = v
+                        w.put(v)
+                    sim.clk(1)
+                    chk()
+        except Exception as e:
+            n0 = len(res.failures) + len(res.known_hits)
+            chk()
+            if len(res.failures) + len(res.known_hits) == n0:
+                res.hist('simulation_errors', f'{case.real}:{type(e).__name__}:{str(e)[:30]}')
+        res.count(('single', i, case.real, str(case.desc)), hist={'single_blocks': case.real})
+
+
 def main(res, tier, rng, replay):
     ok, metas, errors, changed = regenerate()
     for e in errors:
@@ -191,6 +281,7 @@ def main(res, tier, rng, replay):
     except ToolFailure as e:
         res.broken.append(('correspondence', 'net-sim', str(e)[:300]))
     user_blocks(res, rng.fork('user'), 40 if tier == 'quick' else 600)
+    single_block_stream(res, rng.fork('single'), 300 if tier == 'quick' else 6000)
     res.cov['rule'] = ('T1: every generated leaf/FSM/Wire definition vs the real method on seeded states (distinct = distinct request '
                        'line); designs: seeded random netlists of primitive leaves with registers/feedback/memories, built in random '
                        'instantiation order, driven by extreme pokes (negative, oversized) and clk(n); every wire range-checked on the '
